@@ -445,7 +445,7 @@ def expected_pib_error(nch, min_in, min_out, inl, outl, mask):
 
 def malformed_op(r, nch):
     """one malformed process_into_buffer call in the symbolic spec language"""
-    shape = r.below(9)
+    shape = r.below(12)
     mask = None
     ins = ['next'] * nch
     outs = ['next'] * nch
@@ -467,12 +467,28 @@ def malformed_op(r, nch):
     elif shape == 7:
         c = r.below(nch)
         outs[c] = r.choice(['next-1', 'abs:0', 'next-3'])
-    else:
+    elif shape == 8:
         c = r.below(nch)
         ins[c] = 'next-1'
         outs[r.below(nch)] = 'next-1'
         if r.chance(0.5):
             mask = "".join(r.choice("01") for _ in range(nch))
+    else:
+        # an active channel too short, behind at least one inactive channel (the reported channel number is the real one,
+        # not the position among the active channels); inactive channels may be passed empty
+        c = (1 + r.below(nch - 1)) if nch > 1 else 0
+        mk = [r.choice("01") for _ in range(nch)]
+        mk[c] = '1'
+        if nch > 1:
+            mk[r.below(c)] = '0'
+        mask = "".join(mk)
+        for q in range(nch):
+            if mk[q] == '0' and r.chance(0.5):
+                ins[q] = 'abs:0'; outs[q] = 'abs:0'
+        if shape in (9, 11):
+            ins[c] = r.choice(['next-1', 'abs:0', 'next-2'])
+        if shape in (10, 11):
+            outs[c] = r.choice(['next-1', 'abs:0', 'next-3'])
     mstr = '-' if mask is None else (mask if mask != '' else '~')
     il = ";".join(ins) if ins else '~'
     ol = ";".join(outs) if outs else '~'
@@ -492,10 +508,10 @@ def run_C13(ctx):
         r = rng.fork("c13_%d" % i)
         kind = gens.ALL[i % 7]
         if kind in gens.ASYNC:
-            cfg = async_cfg(r, kind, 'quick', nch=r.choice([1, 2, 3]))
+            cfg = async_cfg(r, kind, 'quick', nch=r.choice([1, 2, 3, 4]))
             cfg['chunk'] = max(4, min(cfg['chunk'], 64))
         else:
-            cfg = fft_cfg(r, kind, 'quick', nch=r.choice([1, 2, 3]))
+            cfg = fft_cfg(r, kind, 'quick', nch=r.choice([1, 2, 3, 4]))
         nch = cfg['nch']
         head = ["T ty=%s" % cfg['ty'], new_line(cfg)]
         a, b, ann = list(head), list(head), []
@@ -518,6 +534,35 @@ def run_C13(ctx):
         a.append(valid); b.append(valid); ann.append('valid')
         ca = Case("mal_%03d_%s_a" % (i, kind), a, {'cfg': cfg, 'ann': ann})
         cb = Case("mal_%03d_%s_b" % (i, kind), b, {'cfg': cfg, 'is_twin': True})
+        ca.meta['twin'] = cb
+        cases += [ca, cb]
+    # directed: fixed-output resamplers at the points of their history where input_frames_next() is 0 (a call that needs no new
+    # input must still reject a wrong number of channels, and must not be changed by the rejected call)
+    zero_need = [{'kind': 'fftout', 'rin': 44100, 'rout': 48000, 'chunk': 64, 'sub': 1, 'nch': 2, 'ty': 'f64'},
+                 {'kind': 'fftout', 'rin': 48000, 'rout': 44100, 'chunk': 128, 'sub': 2, 'nch': 2, 'ty': 'f32'}]
+    for kk, rt, ck in (('fastout', 4.0, 1), ('sincout', 8.0, 2)):
+        zc = async_cfg(rng.fork("c13_zero_" + kk), kk, 'quick', nch=2)
+        zc.update({'ratio': rt, 'maxrel': 1.0, 'chunk': ck})
+        if kk == 'sincout':
+            zc.update({'slen': 8, 'L': 8}); zc['factor'] = max(zc['factor'], 2)
+        zero_need.append(zc)
+    for j, cfg in enumerate(zero_need if not ctx.quick else zero_need[:3]):
+        r = rng.fork("c13_zero_%d" % j)
+        nch = cfg['nch']
+        head = ["T ty=%s" % cfg['ty'], new_line(cfg)]
+        a, b, ann = list(head), list(head), []
+        sig = "rand:%d" % r.below(99999)
+        valid = "PIB mask=- inlen=%s outlen=%s sig=%s" % (";".join(['next'] * nch), ";".join(['max'] * nch), sig)
+        for rd in range(9):
+            a.append(valid); b.append(valid); ann.append('valid')
+            shapes = [(['next'] * (nch + 1), ['next'] * nch), (['next'] * (nch - 1), ['next'] * nch), (['next'] * nch, ['next'] * (nch + 1)),
+                      (['next'] * nch, ['next'] * (nch - 1)), ([], ['next'] * nch)]
+            for ins, outs in (shapes if rd % 2 == 0 else [shapes[r.below(len(shapes))]]):
+                a.append("PIB mask=- inlen=%s outlen=%s sig=rand:%d" % (";".join(ins) if ins else '~', ";".join(outs) if outs else '~', r.below(10000)))
+                ann.append('bad')
+        a.append(valid); b.append(valid); ann.append('valid')
+        ca = Case("mal_zero_%02d_%s_a" % (j, cfg['kind']), a, {'cfg': cfg, 'ann': ann})
+        cb = Case("mal_zero_%02d_%s_b" % (j, cfg['kind']), b, {'cfg': cfg, 'is_twin': True})
         ca.meta['twin'] = cb
         cases += [ca, cb]
     # invalid constructor arguments
@@ -578,6 +623,7 @@ def run_C13(ctx):
         ann = c.meta['ann']
         prev = tr['init']
         valid_a = []
+        degenerate = False
         for i, s in enumerate(tr['steps']):
             kind = ann[i] if i < len(ann) else '?'
             if s.res in FATAL:
@@ -590,7 +636,9 @@ def run_C13(ctx):
                 mask = None if mk == '-' else ([] if mk == '~' else [ch == '1' for ch in mk])
                 exp = expected_pib_error(nch, in_next, out_next, inl, outl, mask)
                 if exp is None:
-                    pass
+                    # the call meant to be malformed satisfies the contract at this point of the history (e.g. a fixed-output
+                    # type that needs 0 input frames accepts an empty input): it is a valid call the twin does not make
+                    degenerate = True
                 elif s.res != 'err' or s.fields != exp:
                     out.append(fail(c, i, "malformed call answered %s %s, contract says Err %s" % (s.res, s.fields, exp)))
                 if s.res == 'err':
@@ -607,6 +655,9 @@ def run_C13(ctx):
         b = c.meta['twin']
         if not getattr(b, 'trace', None):
             b.trace = parse_trace(b.impl_path, b.hist_path)
+        if degenerate:
+            c.meta['unmeasurable'] = True
+            return out
         for j, (sa, sb) in enumerate(zip(valid_a, b.trace['steps'])):
             if (sa.res, sa.fields, sa.outs, sa.g) != (sb.res, sb.fields, sb.outs, sb.g):
                 out.append(fail(c, j, "valid call #%d differs from the history without the rejected calls" % j))
@@ -682,6 +733,10 @@ def run_C16(ctx):
         if c.trace['new'] != 'ok':
             return [fail(c, -1, "constructor failed: %s" % c.trace['new'])]
         act = c.meta['act']
+        for i, st in enumerate([c.trace['init']] + c.trace['steps']):
+            if st.gv is not None:
+                return [fail(c, i - 1, "the VecResampler wrapper reports (in max, in next, out max, out next, delay, channels) = %s, the Resampler "
+                             "trait %s" % (st.gv, st.g))]
         for i, (sa, sb) in enumerate(zip(c.trace['steps'], b.trace['steps'])):
             if sa.res in FATAL or sb.res in FATAL:
                 if sa.res != sb.res:
@@ -790,6 +845,29 @@ def directed_ramp_cases(rng, tag, linear_index_signal):
             pib(); pib(); pib()
         c = Case("%s_dr_%03d_%s" % (tag, i, k), lines, {'cfg': cfg, 'ops': ops, 'sig': sig, 'warp': linear_index_signal})
         cases.append(c)
+    # large chunks relative to the filter length on the fixed-output sinc type: upward and downward ramps followed by four calls
+    # (an input request that is wrong by a fraction of the chunk shows two or three calls later)
+    for i in range(8):
+        r = rng.fork("%s_drs_%d" % (tag, i))
+        cfg = async_cfg(r, 'sincout', 'quick', nch=1, ty='f64')
+        cfg.update({'chunk': r.choice([256, 512]), 'maxrel': r.choice([1.5, 2.0]), 'ratio': 1.0, 'slen': 16, 'L': 16,
+                    'interp': 'default', 'factor': max(2, cfg['factor'])})
+        tr = RatioTracker(cfg)
+        sig = "ramp" if linear_index_signal else "rand:%d" % r.below(10 ** 6)
+        lines = ["T ty=f64", new_line(cfg)]
+        ops = []
+        def pib2():
+            ok, why = tr.envelope()
+            lines.append("PIB mask=- inlen=next outlen=next sig=%s" % sig)
+            ops.append({'op': 'pib', 'envelope': ok, 'why': why}); tr.processed()
+        pib2(); pib2()
+        frac = [0.3, 0.6, 0.9, 0.999][i % 4]
+        bound = tr.hi if i < 6 else tr.lo
+        x = min(max(tr.ratio + frac * (bound - tr.ratio), tr.lo), tr.hi)
+        lines.append("SETRATIO x=%s ramp=1" % f64hex(x))
+        tr.set_ratio(x, True); ops.append({'op': 'setratio', 'ratio': x, 'ramp': True})
+        pib2(); pib2(); pib2(); pib2()
+        cases.append(Case("%s_drs_%03d_sincout" % (tag, i), lines, {'cfg': cfg, 'ops': ops, 'sig': sig, 'warp': linear_index_signal}))
     return cases
 
 
@@ -1147,6 +1225,18 @@ def run_C14(ctx):
         for _ in range(int((n0 + 900) / max(1, cfg['chunk'] if k not in ('fastout', 'sincout', 'fftout') else cfg['chunk'] / ratio)) + 6):
             lines.append("PIB mask=- inlen=next outlen=max sig=imp:%d" % n0)
         cases.append(Case("imp_%04d_%s" % (i, k), lines, {'cfg': cfg, 'n0': n0, 'ratio': ratio}))
+    # the delay at the ratio in force, not at the constructed one: a non-ramped ratio change before the first frame
+    for j, (k, new_ratio) in enumerate([('fastin', 3.0), ('fastout', 4.0), ('fastout', 3.0), ('fastin', 4.0)]):
+        if ctx.quick and j >= 2:
+            break
+        r = rng.fork("c14_set_%d" % j)
+        cfg = async_cfg(r, k, tier, nch=1, ty='f64')
+        cfg.update({'ratio': 1.0, 'maxrel': 4.0, 'chunk': r.choice([32, 64, 100]), 'deg': r.choice([0, 1, 2, 3])})
+        n0 = 300 + r.below(200)
+        lines = ["T ty=f64", new_line(cfg), "SETRATIO x=%s ramp=0" % f64hex(new_ratio)]
+        for _ in range(int((n0 + 900) / max(1, cfg['chunk'] if k == 'fastin' else cfg['chunk'] / new_ratio)) + 6):
+            lines.append("PIB mask=- inlen=next outlen=max sig=imp:%d" % n0)
+        cases.append(Case("imp_set_%d_%s" % (j, k), lines, {'cfg': cfg, 'n0': n0, 'ratio': new_ratio}))
     if not ctx.quick:
         # very large FFT blocks (implementation only: the delay must still be fft_size_out / 2)
         for j, (k, rin, rout, chunk) in enumerate([('fftinout', 44100, 48000, 16384), ('fftout', 96000, 44100, 8192), ('fftin', 48000, 48010, 9000),
@@ -1166,6 +1256,9 @@ def run_C14(ctx):
         ys = []
         delay = tr['init'].g[4]
         for s in tr['steps']:
+            if s.res == 'unit' and not ys:
+                delay = s.g[4]          # output_delay() after a ratio change that precedes the stream
+                continue
             if s.res != 'counts':
                 return [fail(c, -1, "call failed: %s %s" % (s.res, s.fields))]
             ys.extend(expand_samples(s.outs[0], 'f64')[:int(s.fields[1])])
@@ -1209,10 +1302,15 @@ def run_C15(ctx):
     n_eval = n_corr = 0
     for ci in range(ncfg):
         r = rng.fork("k%d" % ci)
-        ty = r.choice(['f64', 'f32'])
+        # stratified: both sample types alternate, and the first four configurations use odd multiples of 8
+        # (the lengths on which a kernel unrolled by 16 needs a remainder loop)
+        ty = ['f64', 'f32'][ci % 2]
         hexf = f64hex if ty == 'f64' else f32hex
         conv = hexf64 if ty == 'f64' else hexf32
-        slen = 8 * r.choice([1, 2, 3, 4, 5, 7, 8, 9, 16] if ctx.quick else [1, 2, 3, 5, 7, 8, 9, 15, 16, 17, 32])
+        if ci < 4:
+            slen = 8 * r.choice([1, 3, 5, 7, 9, 13])
+        else:
+            slen = 8 * r.choice([1, 2, 3, 4, 5, 7, 8, 9, 16] if ctx.quick else [1, 2, 3, 5, 7, 8, 9, 15, 16, 17, 32])
         factor = r.choice([1, 2, 4, 16])
         fcut = f32round(r.choice([0.95, 0.8, 0.5]))
         win = r.below(6)
@@ -2191,11 +2289,28 @@ def run_C01(ctx):
     if rl:
         n = 0
         cases = [replay_probe(rl)]
+    n_explicit = 0
     for i in range(n):
         r = rng.fork("c01_%d" % i)
         model = (i % 5 == 0)
         if i % 4 != 3:
             cfg = sinc_probe_cfg(r, ctx.quick, model)
+            explicit = (not model) and i % 2 == 1
+            if explicit:
+                # the same filter through an explicitly chosen kernel (new_with_interpolator): what the CPU dispatch would pick on
+                # a machine without AVX (SSE) or without SIMD (scalar).  Stratified over kernel x sample type, on the lengths
+                # that are 8 mod 16.
+                combos = [('sse', 'f32', 72), ('avx', 'f32', 104), ('sse', 'f32', 104), ('scalar', 'f32', 72), ('sse', 'f64', 72),
+                          ('avx', 'f64', 72), ('scalar', 'f64', 104), ('avx', 'f32', 72)]
+                if n_explicit < len(combos):
+                    cfg['interp'], cfg['ty'], cfg['L'] = combos[n_explicit]
+                    cfg['slen'] = cfg['L']
+                    cfg['itype'], cfg['factor'] = 0, r.choice([256, 1024])     # inter-branch interpolation error far below the window leakage
+                    if combos[n_explicit][1] == 'f32' and n_explicit % 2 == 0:
+                        cfg['window'] = [0, 5][(n_explicit // 2) % 2]       # Blackman, Hann2: leakage bounds well above the f32 floor
+                else:
+                    cfg['interp'] = r.choice(['sse', 'scalar', 'avx'])
+                n_explicit += 1
             wname = WINDOWS[cfg['window']]
             cc = cutoff_py(cfg['L'], wname)
             fc = r.choice([cc, 0.95, 0.9, 0.8])
@@ -2203,6 +2318,9 @@ def run_C01(ctx):
             pedge = cfg['fcut'] * min(1.0, cfg['ratio']) - (1 - cc)
             span = cfg['L']
             fam = wname
+            if explicit and cfg['ratio'] < 1.0:
+                # the cutoff is scaled the way make_interpolator scales it
+                cfg['fcut'] = f32round(cfg['fcut'] * f32round(cfg['ratio']))
         else:
             cfg = fft_probe_cfg(r, ctx.quick, model)
             fin, fout = fft_sizes(cfg)
@@ -2555,7 +2673,8 @@ PROPS = {
     'C11': {
         'run': run_C11,
         'pinned': ['C11_shift_per_channel', 'C11_fill_per_channel', 'C11_channel_projection', 'C11_masked_untouched',
-                   'C11_fft_per_channel', 'C11_instants_data_independent', 'C11_fast_in_projection_R', 'C11_sinc_in_projection_R'],
+                   'C11_fft_per_channel', 'C11_instants_data_independent', 'C11_fast_in_projection_R', 'C11_sinc_in_projection_R',
+                   'C11_async_noninterference', 'C11_fft_in_noninterference', 'C11_fft_out_noninterference', 'C11_fft_inout_noninterference'],
         'unproved': ['the end-to-end statement "n-channel run projected on channel c = single-channel run" is a theorem for FastFixedIn and '
                      'SincFixedIn (ideal arithmetic, calls without a mask; the stream theorems of C05 give the same for FastFixedOut and the FFT '
                      'types channel by channel); with masks and in floating point it is assembled from the stage lemmas by the twin comparison',
@@ -2579,7 +2698,7 @@ PROPS = {
     'C17': {
         'run': run_C17,
         'replay_aware': True,
-        'pinned': ['C17_control_function_of_ctl', 'C17_control_independent_of_T', 'C17_async_types'],
+        'pinned': ['C17_control_function_of_ctl', 'C17_control_independent_of_T', 'C17_async_types', 'C17_fft_control_function_of_ctl', 'C17_fft_control_independent_of_T'],
         'unproved': ['the numerical half (f32 output within a small multiple of 2^-23 * peak of the f64 output) is measured on every twin history '
                      'against a fixed tolerance, not proved (a rounding-error analysis of the kernels and of the FFT is not formalised)',
                      'FFT types: their control state is integer-only and sample-type independent by inspection of the generated records; compared on every twin'],
